@@ -17,7 +17,7 @@ pub fn compose(ctx: &Ctx, st: &mut Stats, keep: &dyn Fn(&str) -> bool) {
         if ctx.tier == Tier::San && !["C04", "C05", "C06", "C15", "C19"].contains(&p) {
             continue;
         }
-        let sub = Ctx { prop: p.to_string(), ..ctx.clone() };
+        let sub = Ctx { prop: p.to_string(), light: true, ..ctx.clone() };
         let mut s = Stats::new();
         s.seq_shard = ctx.shard;
         props::run_one(&sub, &mut s);
